@@ -28,13 +28,16 @@ TRUSTED = ['numpy basic slicing (clipping at the length), boolean-mask indexing 
            'the theorems hold for every permutation',
            'float64 comparisons of the exactly representable grid values = integer comparisons']
 
-IMPORTS = 'Model.Num Model.Rtree'
+IMPORTS = 'Model.Num Model.Rtree Model.RtreeCheck'
 CASE_TY = 'nat * list (list (option Z)) * list nat * nat * list (list Z)'
+# readable form (replay / diagnosis): sorted index lists
 RES_TY = 'list (list (option Z)) * list (option Z) * list (list nat * list nat * list nat)'
 FN = 'rtree_case'
-RCASE_TY = 'nat * nat'
-RRES_TY = 'nat * list (nat * nat)'
-RFN = 'ranges_case'
+# compact form (bulk): per query one integer packing the three index sets
+PRES_TY = 'list (list (option Z)) * list (option Z) * list Z'
+PFN = 'rtree_case_packed'
+CASE1_TY = 'list (list (option Z)) * list nat * nat'
+P1FN = 'rtree_case_1d'
 
 
 def N(x):
@@ -43,6 +46,38 @@ def N(x):
 
 def _frow(r):
     return [None if x != x else C.Some(int(round(float(x) * U.SCALE))) for x in r]
+
+
+def _mask(xs):
+    return sum(1 << int(x) for x in xs)
+
+
+def _zs(x):
+    return str(x) if x >= 0 else f'({x})'
+
+
+def _row_txt(r):
+    return '[' + '; '.join('None' if x != x else 'Some ' + _zs(int(round(float(x) * U.SCALE)))
+                           for x in r) + ']'
+
+
+def _raw_row(r):
+    return C.Raw(_row_txt(r) + '%Z')
+
+
+def _raw_rows(rows):
+    return C.Raw('[' + '; '.join(_row_txt(r) for r in rows) + ']%Z')
+
+
+def _raw_nats(xs):
+    return C.Raw('[' + '; '.join(str(int(x)) for x in xs) + ']%nat')
+
+
+def _raw_queries(qs):
+    return C.Raw('[' + '; '.join('[' + '; '.join(_zs(z) for z in U.zquery(q)) + ']' for q in qs) + ']%Z')
+
+
+Q1D = U.all_queries_1d()
 
 
 class Build:
@@ -78,12 +113,27 @@ class Build:
             return self
         self.tree_obj = t
         self.keys, self.tree, self.tb, self.impl = keys, tree, tb, per
-        self.case = (N(d), [_frow(r) for r in rows], [N(k) for k in keys], N(max(0, self.page_size)),
-                     [U.zquery(q) for q in self.queries])
-        self.result = ([_frow(r) for r in tree], _frow(tb),
-                       [([N(x) for x in sorted(a)], [N(x) for x in sorted(b)], [N(x) for x in sorted(c)])
-                        for a, b, c in per])
+        self.dup = next((j for j, tr in enumerate(per) if any(len(set(x)) != len(x) for x in tr)), None)
         return self
+
+    # -- the case in the model's vocabulary
+    def case_full(self):
+        return (N(self.d), _raw_rows(self.rows), _raw_nats(self.keys), N(max(0, self.page_size)),
+                _raw_queries(self.queries))
+
+    def case_1d(self):
+        return (_raw_rows(self.rows), _raw_nats(self.keys), N(max(0, self.page_size)))
+
+    def result_packed(self):
+        n = len(self.rows)
+        s = 1 << n
+        pk = [_mask(a) + s * (_mask(b) + s * _mask(c)) for a, b, c in self.impl]
+        return (_raw_rows(self.tree), _raw_row(self.tb), C.Raw('[' + '; '.join(map(str, pk)) + ']%Z'))
+
+    def result_full(self):
+        return ([_frow(r) for r in self.tree], _frow(self.tb),
+                [([N(x) for x in sorted(a)], [N(x) for x in sorted(b)], [N(x) for x in sorted(c)])
+                 for a, b, c in self.impl])
 
 
 def _same_floats(a, b):
@@ -91,7 +141,8 @@ def _same_floats(a, b):
 
 
 def check_oracle(rep, b):
-    """implementation against the brute-force oracle of the specification"""
+    """implementation against the brute-force oracle of the specification (U.brute, evaluated
+    for the whole batch of queries at once)"""
     d, rows = b.d, b.rows
     n = len(rows)
     if sorted(b.keys) != list(range(n)):
@@ -103,16 +154,26 @@ def check_oracle(rep, b):
         rep.violation('oracle:total_bounds', 'total_bounds is not the union of the finite boxes',
                       {**b.meta(), 'impl': b.tb, 'expected': U.brute_total(rows, d)})
         ok = False
+    if b.dup is not None:
+        rep.violation('oracle:duplicate', 'a row is reported twice',
+                      {**b.meta(), 'queries': [b.queries[b.dup]], 'impl': list(b.impl[b.dup])})
+        return False
     if not U.well_formed(rows, d):
         return ok      # reversed boxes: only the model comparison applies (theorems need min <= max)
-    for q, (it, cv, ov) in zip(b.queries, b.impl):
-        ei, ec, eo = U.brute(rows, q, d)
+    inter, cov, tie = U.brute_batch(rows, b.queries, d)
+    nfin = sum(1 for r in rows if not U.isnan_row(r))
+    hkey = hash((d, b.page_size, tuple(map(tuple, rows))))
+    c_none = c_all = c_some = c_cp = c_tie = 0
+    for j, (q, (it, cv, ov)) in enumerate(zip(b.queries, b.impl)):
+        ei = np.flatnonzero(inter[j]).tolist()
+        ec = np.flatnonzero(cov[j]).tolist()
+        eo = np.flatnonzero(inter[j] & ~cov[j]).tolist()
         if sorted(it) != ei:
-            kind = 'duplicate' if sorted(set(it)) == ei else \
-                ('missing' if set(it) < set(ei) else 'extra' if set(it) > set(ei) else 'wrong')
+            kind = 'missing' if set(it) < set(ei) else 'extra' if set(it) > set(ei) else 'wrong'
             rep.violation(f'oracle:intersects:{kind}',
                           'intersects does not return exactly the overlapping rows',
-                          {**b.meta(), 'queries': [q], 'impl': sorted(it), 'expected': ei})
+                          {**b.meta(), 'queries': [q], 'impl': sorted(it), 'expected': ei,
+                           'check': U.brute(rows, q, d)})
             return False
         if sorted(cv) != ec or sorted(ov) != eo:
             rep.violation('oracle:covers_overlaps',
@@ -120,15 +181,22 @@ def check_oracle(rep, b):
                           {**b.meta(), 'queries': [q], 'impl': [sorted(cv), sorted(ov)],
                            'expected': [ec, eo]})
             return False
-        if ei and len(ei) < sum(1 for r in rows if not U.isnan_row(r)):
-            rep.nontrivial((d, b.page_size, repr(rows), repr(q)))
-        rep.count('q:none' if not ei else 'q:all' if len(ei) == n else 'q:some')
+        if ei and len(ei) < nfin:
+            rep.nontrivial((hkey, tuple(q)))
+            c_some += 1
+        elif not ei:
+            c_none += 1
+        else:
+            c_all += 1
         if ec and eo:
-            rep.count('q:covered+partial')
-        # ties: a query side equal to a row side
-        if any(any(r[k] == q[d + k] or r[d + k] == q[k] or r[k] == q[k] or r[d + k] == q[d + k]
-                   for k in range(d)) for r in rows if not U.isnan_row(r)):
-            rep.count('q:tie')
+            c_cp += 1
+        if tie[j]:
+            c_tie += 1
+    rep.count('q:none', c_none)
+    rep.count('q:all', c_all)
+    rep.count('q:some', c_some)
+    rep.count('q:covered+partial', c_cp)
+    rep.count('q:tie', c_tie)
     return ok
 
 
@@ -151,7 +219,7 @@ def gen_builds(rep, tier):
     quick = tier == 'quick'
     nanrow = [U.NAN, U.NAN]
     ivs = [[float(a), float(b)] for a, b in U.intervals()] + [nanrow]
-    q1 = U.all_queries_1d()
+    q1 = Q1D
     # (i) d = 1: every sequence of n <= 3 rows (10 intervals + NaN) x page_size 1..n+1 x every
     #     query; n = 4: every multiset (quick) / every sequence (thorough)
     for n in range(0, 5):
@@ -169,7 +237,7 @@ def gen_builds(rep, tier):
     for n in range(1, 4):
         for rows in itertools.product(ivs[:4] + [[U.NAN, 1.0], [2.0, U.NAN]], repeat=n):
             for ps in range(1, n + 2):
-                yield (1, [list(r) for r in rows], ps, 10, q1[::3], 'partial-nan-1d')
+                yield (1, [list(r) for r in rows], ps, 10, q1, 'partial-nan-1d')
     # (ii) d = 2, 3 (and some d = 1 with larger n): seeded stream
     nbuilds = 9000 if quick else 400000
     nmax = 12 if quick else 60
@@ -194,6 +262,7 @@ def gen_builds(rep, tier):
 
 
 def run(rep):
+    import time as _t
     tier = getattr(rep, 'tier_run', rep.tier)
     rep.rule = ('index builds over boxes with integer corners in {0..3}^d (zero extent, duplicates, '
                 'shared edges/corners, all identical, fully / partially NaN rows at any position), '
@@ -203,7 +272,7 @@ def run(rep):
                 'page size x all 81 queries; d=2,3 seeded stream, ~40 queries per build; node ranges '
                 'for every (n,page_size), n<=200.  A query is non-trivial when it matches some but '
                 'not all finite rows; distinct = distinct (d, page_size, rows, query)')
-    cases, results, builds = [], [], []
+    full, one = [], []          # builds compared through rtree_case_packed / rtree_case_1d
     nb = 0
     for d, rows, ps, p, queries, tag in gen_builds(rep, tier):
         b = Build(d, rows, ps, p, queries, tag).run()
@@ -232,23 +301,26 @@ def run(rep):
             rep.sample({**b.meta(), 'queries': b.queries[:2], 'keys': b.keys,
                         'impl': b.impl[:2], 'total_bounds': b.tb}, cap=4)
         b.tree_obj = None
-        cases.append(b.case)
-        results.append(b.result)
-        builds.append(b)
+        if queries is Q1D:
+            one.append((b, b.case_1d(), b.result_packed()))
+        else:
+            full.append((b, b.case_full(), b.result_packed()))
+        b.impl_sorted = [[sorted(x) for x in tr] for tr in b.impl]
     rep.extra['builds'] = nb
-    import time as _t
     rep.extra['t_python_s'] = round(_t.time() - rep.t0, 1)
-    bad = C.coq_mismatches(IMPORTS, FN, CASE_TY, RES_TY, cases, results, shard=150, timeout=1200)
+    rep.extra['cpu_python_s'] = round(_t.process_time(), 1)
     seen = set()
-    for i in bad:
-        b = builds[i]
-        sig, what, rp = diagnose(b)
-        if sig in seen:
-            continue
-        seen.add(sig)
-        rep.violation(sig, what, rp)
-        if len(seen) > 8:
-            break
+    for group, fn, cty in ((one, P1FN, CASE1_TY), (full, PFN, CASE_TY)):
+        bad = C.coq_mismatches(IMPORTS, fn, cty, PRES_TY, [g[1] for g in group], [g[2] for g in group],
+                               shard=max(50, min(400, len(group) // (3 * C.NCPU) + 1)), timeout=1500)
+        for i in bad:
+            sig, what, rp = diagnose(group[i][0])
+            if sig in seen:
+                continue
+            seen.add(sig)
+            rep.violation(sig, what, rp)
+            if len(seen) > 6:
+                break
     rep.extra['t_coq_s'] = round(_t.time() - rep.t0, 1)
     run_ranges(rep, tier)
     rep.extra['t_ranges_s'] = round(_t.time() - rep.t0, 1)
@@ -259,82 +331,112 @@ def run(rep):
 def parse_model(txt):
     """Coq's printed result of rtree_case -> python (tree, tb, per-query)"""
     s = txt.replace('%nat', '').replace('%Z', '')
-    s = s.replace('Some ', '').replace('None', 'None').replace(';', ',')
-    return eval(s, {'None': None})  # noqa: S307 - text printed by coqc for our own term
+    s = s.replace('Some ', '').replace(';', ',')
+    return eval(s, {'None': None, '__builtins__': {}})  # text printed by coqc for our own term
+
+
+def _plain(r):
+    return [None if x != x else int(round(float(x) * U.SCALE)) for x in r]
 
 
 def diagnose(b):
-    """which component differs from the model (one more kernel evaluation of this case)"""
-    txt = C.coq_eval(IMPORTS, f'{FN} {C.coq(b.case)}')
-    rp = {**b.meta(), 'keys': b.keys, 'model': txt,
-          'impl': {'total_bounds': b.tb, 'results': [[sorted(a), sorted(x), sorted(y)] for a, x, y in b.impl]}}
+    """which component differs from the model (one readable kernel evaluation of this case)"""
+    case = (N(b.d), [_frow(r) for r in b.rows], [N(k) for k in b.keys], N(max(0, b.page_size)),
+            [U.zquery(q) for q in b.queries])
+    txt = C.coq_eval(IMPORTS, f'{FN} {C.coq(case)}')
+    impl_sorted = [[sorted(x) for x in tr] for tr in b.impl]
+    rp = {**b.meta(), 'keys': b.keys, 'scale': U.SCALE, 'model': txt,
+          'impl': {'bounds_tree': b.tree, 'total_bounds': b.tb, 'results': impl_sorted}}
     try:
         mtree, mtb, mper = parse_model(txt)
-        unz = lambda r: [None if isinstance(x, type(None)) else x.v for x in r]  # noqa: E731
-        itree = [unz(r) for r in b.result[0]]
-        if [list(r) for r in mtree] != itree:
+        if [list(r) for r in mtree] != [_plain(r) for r in b.tree]:
             return ('model:bounds_tree', '_bounds_tree differs from the proven model', rp)
-        if list(mtb) != unz(b.result[1]):
+        if list(mtb) != _plain(b.tb):
             return ('model:total_bounds', 'total_bounds differs from the proven model', rp)
-        for j, (m, (a, x, y)) in enumerate(zip(mper, b.impl)):
-            mi, mc, mo = [list(z) for z in m]
-            if mi != sorted(a):
-                rp2 = {**rp, 'queries': [b.queries[j]], 'model': [mi, mc, mo],
-                       'impl': [sorted(a), sorted(x), sorted(y)]}
-                return ('model:intersects', 'intersects differs from the proven model', rp2)
-            if mc != sorted(x) or mo != sorted(y):
-                rp2 = {**rp, 'queries': [b.queries[j]], 'model': [mi, mc, mo],
-                       'impl': [sorted(a), sorted(x), sorted(y)]}
+        for j, (m, tr) in enumerate(zip(mper, impl_sorted)):
+            m = [list(z) for z in m]
+            if m != tr:
+                rp2 = {**rp, 'queries': [b.queries[j]], 'model': m, 'impl': tr}
+                if m[0] != tr[0]:
+                    return ('model:intersects', 'intersects differs from the proven model', rp2)
                 return ('model:covers_overlaps', 'covers_overlaps differs from the proven model', rp2)
     except Exception as e:  # unparsable: report the raw texts
         rp['parse_error'] = repr(e)
     return ('model:differs', 'index build / query results differ from the proven model', rp)
 
 
-def run_ranges(rep, tier):
-    """(iii) node -> [start, stop) for every (n, page_size), n <= 200, read from the real jitclass"""
-    from spatialpandas.spatialindex import HilbertRtree
-    cases, results, metas = [], [], []
+def range_pairs(tier):
     nmax = 200
     for n in range(1, nmax + 1):
-        pss = list(range(1, n + 2)) + [512]
-        if tier == 'quick' and n > 64:
-            # beyond 64 rows: every page size that changes the number of pages, plus neighbours
-            keep = set()
-            for k in range(1, n + 1):
-                ps = -(-n // k)
-                keep.update(x for x in (ps - 1, ps, ps + 1) if 1 <= x <= n + 1)
-            pss = sorted(keep) + [512]
-        for ps in pss:
-            t = HilbertRtree(np.zeros((n, 2)), p=1, page_size=ps)
-            ls, rg = U.node_ranges(t.numba_rtree)
-            cases.append((N(n), N(ps)))
-            results.append((N(ls), [(N(a), N(b)) for a, b in rg.tolist()]))
-            metas.append({'n': n, 'page_size': ps})
-            rep.evaluations += 1
-            # independent arithmetic oracle: leaves are pages, children partition the parent
-            m = rg.shape[0]
-            okr = True
-            for node in range(m):
-                a, bb = int(rg[node, 0]), int(rg[node, 1])
-                if 2 * node + 2 < m:
-                    okr &= (a == rg[2 * node + 1, 0] and bb == rg[2 * node + 2, 1]
-                            and rg[2 * node + 1, 1] == rg[2 * node + 2, 0])
-                else:
-                    okr &= (a == (node - ls) * ps and bb == a + ps)
-            okr &= (m == 0 or (rg[0, 0] == 0 and rg[0, 1] >= n))
-            if not okr:
-                rep.violation('ranges:oracle', 'node ranges do not partition the rows',
-                              {'n': n, 'page_size': ps, 'ranges': rg.tolist(), 'leaf_start': int(ls)})
-                return
-    rep.count('ranges_cases', len(cases))
-    bad = C.coq_mismatches(IMPORTS, RFN, RCASE_TY, RRES_TY, cases, results, shard=400, timeout=1200)
+        for ps in list(range(1, n + 2)) + [512]:
+            yield n, ps
+
+
+def run_ranges(rep, tier):
+    """(iii) the array-heap arithmetic for every (n, page_size), n <= 200.
+    * tree length and _leaf_start(): implementation = model for every (n, page_size);
+    * node -> [start, stop): the real _start_index/_stop_index of every node of every one of
+      these trees (a) satisfy the partition laws (children split the parent, leaves are pages,
+      the root spans all rows), (b) equal the model's for one tree of every distinct
+      (tree length, page_size) and (c) are equal for trees of equal (tree length, page_size)."""
+    from spatialpandas.spatialindex import HilbertRtree
+    shape_cases, shape_res, shape_meta = [], [], []
+    reps = {}
+    for n, ps in range_pairs(tier):
+        t = HilbertRtree(np.zeros((n, 2)), p=1, page_size=ps)
+        ls, rg = U.node_ranges(t.numba_rtree)
+        ls = int(ls)
+        m = rg.shape[0]
+        shape_cases.append((N(n), N(ps)))
+        shape_res.append((N(m), N(ls)))
+        shape_meta.append({'n': n, 'page_size': ps, 'ranges_check': True})
+        rep.evaluations += 1
+        # (a) independent arithmetic laws, vectorised
+        node = np.arange(m)
+        internal = node[2 * node + 2 < m]
+        leaves = node[2 * node + 2 >= m]
+        pages, nleaves = -(-n // ps), (m + 1) // 2
+        okr = (m % 2 == 1 and ls == (m - 1) // 2
+               and np.array_equal(rg[internal, 0], rg[2 * internal + 1, 0])
+               and np.array_equal(rg[internal, 1], rg[2 * internal + 2, 1])
+               and np.array_equal(rg[2 * internal + 1, 1], rg[2 * internal + 2, 0])
+               and np.array_equal(rg[leaves, 0], (leaves - ls) * ps)
+               and np.array_equal(rg[leaves, 1], (leaves - ls + 1) * ps)
+               and rg[0, 0] == 0 and rg[0, 1] >= n
+               and nleaves >= pages and (nleaves == 1 or nleaves // 2 < pages))
+        if not okr:
+            rep.violation('ranges:laws', 'node ranges do not partition the rows / tree not minimal',
+                          {'n': n, 'page_size': ps, 'ranges': rg.tolist(), 'leaf_start': ls,
+                           'ranges_check': True})
+            return
+        key = (m, ps)
+        if key not in reps:
+            reps[key] = (n, rg)
+        elif not np.array_equal(reps[key][1], rg):
+            rep.violation('ranges:shape-dependent',
+                          'node ranges differ between two trees of equal length and page size',
+                          {'n': n, 'other_n': reps[key][0], 'page_size': ps, 'ranges_check': True})
+            return
+    rep.count('ranges:(n,page_size)', len(shape_cases))
+    rep.count('ranges:distinct(tree_length,page_size)', len(reps))
+    bad = C.coq_mismatches(IMPORTS, 'shape_case', 'nat * nat', 'nat * nat', shape_cases, shape_res,
+                           shard=max(50, len(shape_cases) // (3 * C.NCPU) + 1), timeout=1500)
     for i in bad[:1]:
+        rep.violation('model:tree_shape', 'tree length / _leaf_start differ from the proven model',
+                      {**shape_meta[i], 'impl': [int(x) for x in shape_res[i]],
+                       'model': C.coq_eval(IMPORTS, f'shape_case {C.coq(shape_cases[i])}')})
+    keys = sorted(reps)
+    cases = [(N(reps[k][0]), N(k[1])) for k in keys]
+    results = [C.Raw('[' + '; '.join(f'({a}, {b})' for a, b in reps[k][1].tolist()) + ']%nat') for k in keys]
+    bad = C.coq_mismatches(IMPORTS, 'node_ranges_case', 'nat * nat', 'list (nat * nat)', cases, results,
+                           shard=max(10, len(cases) // (3 * C.NCPU) + 1), timeout=1500)
+    for i in bad[:1]:
+        k = keys[i]
         rep.violation('model:node_ranges',
-                      'tree length / _leaf_start / _start_index / _stop_index differ from the proven model',
-                      {**metas[i], 'ranges_check': True,
-                       'impl': [[int(a), int(b)] for a, b in results[i][1]],
-                       'model': C.coq_eval(IMPORTS, f'{RFN} {C.coq(cases[i])}')})
+                      '_start_index / _stop_index differ from the proven model',
+                      {'n': reps[k][0], 'page_size': k[1], 'ranges_check': True,
+                       'impl': reps[k][1].tolist(),
+                       'model': C.coq_eval(IMPORTS, f'node_ranges_case {C.coq(cases[i])}')})
 
 
 def run_log2(rep, tier):
@@ -390,10 +492,13 @@ def replay(rep, rp):
         return False
     ok = check_oracle(rep, b)
     check_pickle(rep, b)
-    bad = C.coq_mismatches(IMPORTS, FN, CASE_TY, RES_TY, [b.case], [b.result])
+    bad = C.coq_mismatches(IMPORTS, PFN, CASE_TY, PRES_TY, [b.case_full()], [b.result_packed()])
     print('keys :', b.keys)
-    print('impl :', b.tb, [[sorted(a), sorted(x), sorted(y)] for a, x, y in b.impl])
-    print('model:', C.coq_eval(IMPORTS, f'{FN} {C.coq(b.case)}'))
+    print('impl :', b.tree, b.tb, [[sorted(x) for x in tr] for tr in b.impl])
+    if bad:
+        sig, what, rp2 = diagnose(b)
+        print(sig, what)
+        print('model (coordinates x%d):' % U.SCALE, rp2['model'])
     for q in queries:
         print('brute:', q, U.brute(rows, q, b.d) if U.well_formed(rows, b.d) else 'n/a (reversed row)')
     for v in rep.violations:
